@@ -23,11 +23,12 @@ MANIFEST = {
             "point, including that the duplicated self.end box test loses nothing) and lineLine_symm. Proved in Props/C11.lean for all rational inputs: "
             "li_isSome_iff / li_none_iff (Some exactly when the closed segments share a point), li_agrees_intersects (is_some = Line::intersects), "
             "li_improper_endpoint (improper point is one of the four end points), li_single_on_both and proper_point_on_both (single point lies on both segments), "
-            "li_single_unique (outside the all-collinear case it is the only common point), li_proper_iff (flag = no collinear orientation), "
-            "li_collinear_sub and li_collinear_all_collinear (overlap ends lie on both segments; all four end points collinear), "
+            "li_single_exact (it is the only common point: S p n S q = {x}), li_proper_iff (flag = no collinear orientation), li_proper_iff_not_endpoint "
+            "(flag = the point is none of the four end points), "
+            "li_collinear_sub, li_collinear_all_collinear and li_collinear_exact (overlap ends lie on both segments; all four end points collinear; "
+            "the overlap is exactly the common part, S p n S q = S(x,y)), "
             "li_collinear_nondegenerate_partial (overlap ends distinct when both operands have positive length; li_zero_length_witness is the K12 counterexample), "
-            "li_symm (argument order: same class, equal single point and flag, overlap equal up to direction). Not proved: that a collinear overlap is the "
-            "whole intersection (only that its ends are in it) and uniqueness of the single point in the all-collinear touching case. The correspondence compares "
+            "li_symm (argument order: same class, equal single point and flag, overlap equal up to direction). The correspondence compares "
             "class, copied end points and overlaps for equality in both operand orders, the proper point within a conditioning-aware bound and inside both "
             "bounding boxes, and agreement with Line::intersects.",
     "note": "Trusted: Lean kernel + audited axioms; harness/generators (sampling). Known findings K10 (underflow range), K11 (nearest-endpoint fallback outside a bbox), "
